@@ -300,7 +300,10 @@ def build_recording(tier):
         for m_ in r_["case"]["methods"]:
             files_of[m_["ctrl"]].add(m_["file"])
         secs = [s_ for x_ in r_["case"]["ctrls"] + r_["case"]["methods"] for s_ in x_.get("sec") or []]
-        if any(len(set(s_.get("scopes") or [])) < len(s_.get("scopes") or []) for s_ in secs):
+        def rep_alt(x_):
+            alts = [json.dumps([s_.get("scheme"), s_.get("scopes") or []]) for s_ in x_.get("sec") or []]
+            return len(set(alts)) < len(alts)
+        if any(len(set(s_.get("scopes") or [])) < len(s_.get("scopes") or []) for s_ in secs) or any(rep_alt(x_) for x_ in r_["case"]["ctrls"] + r_["case"]["methods"]):
             dups.append(r_["id"])       # a scope listed twice in one @Security: whatever de-duplicates through a set loses the written order
         elif len(set(names)) < len(names) and imported:
             twins.append(r_["id"])      # controllers sharing a struct name across packages, with imported types: ordering by name alone is ambiguous
